@@ -65,6 +65,17 @@ func c01Type1(c *h.Ctx, chalLens []int, nKeys int) {
 		}
 		iss := type1.NewBasicPrivateIssuer(sk)
 		kid := iss.TokenKeyID()
+		if ki%2 == 1 {
+			// the caller decodes ANOTHER key into the key object it built the issuer from (an object reused for loading
+			// keys): the issuer is the issuer of the key it was constructed with
+			enc, _ := sk.MarshalBinary()
+			keep := new(oprf.PrivateKey)
+			keep.UnmarshalBinary(oprf.SuiteP384, enc)
+			otherKey, _ := oprf.DeriveKey(oprf.SuiteP384, oprf.VerifiableMode, rnd(c, 32), nil)
+			oenc, _ := otherKey.MarshalBinary()
+			sk.UnmarshalBinary(oprf.SuiteP384, oenc)
+			sk = keep
+		}
 		for ci, cl := range chalLens {
 			chal, nonce := rnd(c, cl), rnd(c, 32)
 			det := map[string]any{"type": 1, "challenge_len": cl, "nonce": h.Hex(nonce)}
@@ -165,14 +176,33 @@ func c01Type5(c *h.Ctx, chalLens []int, batches []int) {
 func c01Type5Key(c *h.Ctx, chalLens []int, batches []int, sk *oprf.PrivateKey) {
 	iss := type5.NewBatchedPrivateIssuer(sk)
 	kid := iss.TokenKeyID()
+	{
+		enc, _ := sk.MarshalBinary()
+		keep := new(oprf.PrivateKey)
+		keep.UnmarshalBinary(oprf.SuiteRistretto255, enc)
+		otherKey, _ := oprf.DeriveKey(oprf.SuiteRistretto255, oprf.VerifiableMode, rnd(c, 32), nil)
+		oenc, _ := otherKey.MarshalBinary()
+		sk.UnmarshalBinary(oprf.SuiteRistretto255, oenc) // the caller's key object now holds another key
+		sk = keep
+	}
+	// ONE challenge buffer per length, refilled in place for every next request (a caller's scratch buffer)
+	chalBufs := map[int][]byte{}
 	for bi, n := range batches {
-		chal := rnd(c, chalLens[bi%len(chalLens)])
+		cl5 := chalLens[bi%len(chalLens)]
+		if bi >= len(chalLens) {
+			cl5 = chalLens[2] // the same 31-byte buffer for consecutive requests
+		}
+		if chalBufs[cl5] == nil {
+			chalBufs[cl5] = make([]byte, cl5)
+		}
+		copy(chalBufs[cl5], rnd(c, cl5))
+		chal := clone(chalBufs[cl5])
 		var nonces [][]byte
 		for j := 0; j < n; j++ {
 			nonces = append(nonces, rnd(c, 32))
 		}
 		det := map[string]any{"type": 5, "batch": n, "challenge_len": len(chal)}
-		chalA, kidA := clone(chal), clone(kid)
+		chalA, kidA := chalBufs[cl5], clone(kid) // the reused buffer itself is what the client is given
 		noncesA := make([][]byte, len(nonces))
 		for j := range nonces {
 			noncesA[j] = clone(nonces[j])
@@ -180,7 +210,7 @@ func c01Type5Key(c *h.Ctx, chalLens []int, batches []int, sk *oprf.PrivateKey) {
 		st, err := type5.NewBatchedPrivateClient().CreateTokenRequest(chalA, noncesA, kidA, iss.TokenKey())
 		if bi%2 == 1 {
 			det["caller_buffers_overwritten_after_request"] = true
-			scribble(chalA, kidA)
+			scribble(kidA)
 			scribble(noncesA...)
 			for j := range noncesA {
 				noncesA[j] = nil
